@@ -27,9 +27,15 @@ TYPE_DOPS: Dict[str, Dict[str, Any]] = {
     "float": {"name": "float", "dct": {"k": "STD", "base": "A_FLOAT32", "bits": 32}},
     "dtc": {"kind": "dtcdop", "name": "dtc", "dct": {"k": "STD", "base": "A_UINT32", "bits": 24},
             "dtcs": [{"name": "d1", "code": 0x1234}, {"name": "d2", "code": 0x5678}, {"name": "d3", "code": 0x9ABC}]},
+    # variants whose "value 1" is falsy (0, 0.0, "", b""); strings / byte fields that can be empty need MIN-MAX-LENGTH types
+    "u8z": {"name": "u8z", "dct": U8},
+    "floatz": {"name": "floatz", "dct": {"k": "STD", "base": "A_FLOAT32", "bits": 32}},
+    "asciiz": {"name": "asciiz", "dct": {"k": "MINMAX", "base": "A_ASCIISTRING", "min": 0, "max": 4, "term": "ZERO"}},
+    "bytesz": {"name": "bytesz", "dct": {"k": "MINMAX", "base": "A_BYTEFIELD", "min": 0, "max": 4, "term": "ZERO"}},
 }
 OWN_DID_FLAG = 0x0080
-OWN_PAD = 0xEE  # constant byte in front of the payload of a variant's own re-definition of a service
+OWN_PAD = 0xEE  # constant byte in front of the payload of a variant's own re-definition of a service ...
+PADDED_TYPES = ("asciiz", "bytesz")  # ... and of services whose payload may be empty (see refmatcher.PADDED_TYPES)
 
 
 def fg_dops() -> List[Dict[str, Any]]:
@@ -80,7 +86,7 @@ def service_parts(svc: Dict[str, Any], layer: str, own: bool, dop_layer: str):
     pr = {"kind": "POS-RESPONSE", "name": "PR_" + name,
           "params": [{"t": "CODED-CONST", "name": "sid", "dct": U8, "value": 0x62},
                      {"t": "CODED-CONST", "name": "did", "dct": U16, "value": did}]
-          + ([{"t": "CODED-CONST", "name": "pad", "dct": U8, "value": OWN_PAD}] if own else [])
+          + ([{"t": "CODED-CONST", "name": "pad", "dct": U8, "value": OWN_PAD}] if (own or svc["type"] in PADDED_TYPES) else [])
           + payload_params(svc, layer, "PR_" + name)}
     s = {"name": name, "request": "RQ_" + name, "pos": ["PR_" + name], "neg": ["NR"]}
     return [rq, pr], s
